@@ -531,8 +531,9 @@ fn backlog(env: &mut Env, base: &World, n: u32, arm: usize) -> Result<u64, Fail>
 
 pub fn run(tier: Tier) -> Report {
     let mut rep = Report::new();
+    crate::realx::run_for(&mut rep, "C09", tier.is_quick());
     if let Err(e) = glue_fingerprint() {
-        rep.machinery_errors.push(e);
+        rep.machinery_errors.push(format!("{e} (the mirrored explorations were skipped; the real-loop explorations above were run)"));
         return rep;
     }
     let quick = tier.is_quick();
@@ -647,9 +648,9 @@ pub fn run(tier: Tier) -> Report {
     });
     rep.set("backlog", json!({"queued_datagrams": format!("0..={max_backlog}"), "arms": ["uplink", "client", "housekeeping"], "states": bl_states.iter().map(|s| STATE_NAMES[*s]).collect::<Vec<_>>(), "runs": bl_jobs.len()}));
     let n = n_inj.load(Ordering::Relaxed);
-    rep.states = distinct.lock().unwrap().len() as u64;
-    rep.transitions = n;
-    rep.traces = n;
+    rep.states += distinct.lock().unwrap().len() as u64;
+    rep.transitions += n;
+    rep.traces += n;
     rep.set("injections", json!(n));
     rep.set("link_states", json!(states.iter().map(|s| STATE_NAMES[*s]).collect::<Vec<_>>()));
     rep.set("sweep", json!({"type_codes": 65536, "lengths": sweep_lens, "tails": sweep_tails.len(), "structured_inputs_per_state_and_link": structured(T0).len()}));
@@ -668,6 +669,9 @@ pub fn run(tier: Tier) -> Report {
 }
 
 pub fn replay(v: &Value) -> Result<(), String> {
+    if let Some(r) = crate::realx::replay_for("C09", v) {
+        return r;
+    }
     let st = v["state"].as_u64().ok_or("MACHINERY: no state")? as usize;
     if v["exploration"] == "history" {
         let lib = boundary_datagrams();
